@@ -22,6 +22,39 @@ PROPS = {
         "assumptions": ["decoders in the model: the core binary format listed for C14; FormatStream iteration, archives, pairing URLs, bearer tokens and HTTP handlers are not yet in the model",
                         "partial: allocator abort behaviour and stack depth are runtime properties the model cannot exhibit"],
     },
+    "C01": {
+        "lean": ["SosModel.Props.C01"],
+        "runs": [{"crate": "haccount", "domain": "folder"}],
+        "classes": r"^c01-",
+        "trusted_base": ["decrypted secret content is an opaque token (harness: digest of label, kind, tags, favourite and the binary encoding of the secret)", "the vault mirror is written by the access point before memory on every mutation: modelled as equal to the served vault; reload is modelled as replay of the persisted log"],
+        "assumptions": ["multi-folder operations (move, archive) are covered by the implementation-side oracle and by the per-folder theorems; only the default folder's history is replayed on the Lean model",
+                        "caller-chosen re-used ids at the folder-level API: witness theorem only (account-level ids are fresh)"],
+        "timeout": {"quick": 2400, "thorough": 14000},
+    },
+    "C02": {
+        "lean": ["SosModel.Props.C02"],
+        "runs": [{"crate": "haccount", "domain": "folder"}, {"crate": "haccount", "domain": "sync"}],
+        "classes": r"^c02-",
+        "trusted_base": ["decrypted content as opaque tokens; ciphertext identity not modelled (merge replay re-encrypts)"],
+        "assumptions": ["force merges are proved in the model and reached by the sync harness only through hard conflicts"],
+        "timeout": {"quick": 2400, "thorough": 14000},
+    },
+    "C12": {
+        "lean": ["SosModel.Props.C12"],
+        "runs": [{"crate": "haccount", "domain": "folder"}],
+        "classes": r"^c12-",
+        "trusted_base": ["compaction at the level of decrypted folder content"],
+        "assumptions": ["partial so far: password / cipher changes (old key no longer unlocks, no blob under the old key remains) are not yet modelled or exercised; this check covers compaction in any order and repetition with edits"],
+        "timeout": {"quick": 2400, "thorough": 14000},
+    },
+    "C20": {
+        "lean": ["SosModel.Props.C20"],
+        "runs": [{"crate": "haccount", "domain": "folder"}],
+        "classes": r"^c20-",
+        "trusted_base": ["probly-search ranking not modelled: document membership, document data and counters only"],
+        "assumptions": ["kind and tag counters are not yet recounted by the harness (folder and favourites counters are)"],
+        "timeout": {"quick": 2400, "thorough": 14000},
+    },
     "C04": {
         "lean": ["SosModel.Props.C04"],
         "runs": [{"crate": "haccount", "domain": "sync"}],
